@@ -64,6 +64,13 @@ pub struct Scenario {
   /// blocked operation is ever rescued by a disconnect: termination rests on wakeups alone
   #[serde(default)]
   pub balanced: bool,
+  /// balanced + reserve: producers can never block (unbounded, or everything they send fits the
+  /// capacity); consumers run their *finite* op lists once and reserve units of the total
+  /// before each receive, so every blocking receive that is issued is owed an item — a
+  /// consumer may stop for good after a cancelled receive, and nobody makes up for a wake it
+  /// swallowed
+  #[serde(default)]
+  pub reserve: bool,
 }
 
 pub fn flavours_for(prop: &str) -> Vec<Flavour> {
@@ -149,10 +156,19 @@ pub fn scenario_strategy(flavours: Vec<Flavour>, prop: &str, schedules: usize) -
         proptest::collection::vec((proptest::collection::vec(cop_strategy(f), 0..6), proptest::bool::weighted(0.6)), 1..=maxc),
       )
         .prop_map(move |(producers, consumers)| {
+          let consumers_orig = consumers.clone();
           let balanced = seed % 3 == 0 && f != Flavour::Oneshot;
-          let mut s = Scenario { flavour: f, async_start: a, cap, producers, consumers, seed, schedules, balanced };
+          let mut s = Scenario { flavour: f, async_start: a, cap, producers, consumers, seed, schedules, balanced, reserve: false };
           if balanced {
             normalise_balanced(&mut s);
+            let fits = f.unbounded() || (f.bounded() && f != Flavour::Broadcast && balanced_total(&s) <= cap);
+            if fits && (seed / 3) % 2 == 0 {
+              s.reserve = true;
+              // consumers keep their generated (finite) lists, including try / timed / cancel forms
+              for (i, (c, _)) in s.consumers.iter_mut().enumerate() {
+                *c = consumers_orig[i].0.iter().filter(|o| !matches!(o, COp::Close)).cloned().collect();
+              }
+            }
           }
           s
         })
@@ -244,6 +260,8 @@ impl Log {
 
 struct Env {
   s: Scenario,
+  /// reserve mode: units of the total not yet claimed by a receive operation
+  remaining: std::sync::atomic::AtomicUsize,
   log: SLog,
   reg: Arc<Registry>,
   nproducers: usize,
@@ -724,6 +742,69 @@ fn consumer_thread(env: Arc<Env>, c: usize, mut h: Box<dyn Rx>, ops: Vec<COp>, d
     }
   };
   let oneshot = env.s.flavour == Flavour::Oneshot;
+  if env.s.balanced && env.s.reserve {
+    use std::sync::atomic::Ordering as O;
+    let reserve = |want: usize| -> usize {
+      let mut cur = env.remaining.load(O::SeqCst);
+      loop {
+        let take = want.min(cur);
+        if take == 0 {
+          return 0;
+        }
+        match env.remaining.compare_exchange(cur, cur - take, O::SeqCst, O::SeqCst) {
+          Ok(_) => return take,
+          Err(c) => cur = c,
+        }
+      }
+    };
+    let got_of = |env: &Env| env.log.lock().unwrap().recvs.iter().filter(|r| r.0 == c).map(|r| r.4.len()).sum::<usize>();
+    for op in ops {
+      if env.failed() {
+        break;
+      }
+      let (kind, want): (u8, usize) = match op {
+        COp::Yield => {
+          shuttle::thread::yield_now();
+          continue;
+        }
+        COp::Convert => {
+          h = match h.convert() {
+            Ok(n) => n,
+            Err(o) => o,
+          };
+          continue;
+        }
+        COp::Close => continue,
+        COp::Recv => (0, 1),
+        COp::TryRecv => (1, 1),
+        COp::RecvTimeout(z) => (if z { 2 } else { 3 }, 1),
+        COp::Next => (4, 1),
+        COp::RecvBatch(n) => (5, n as usize),
+        COp::TryRecvBatch(n) => (6, n as usize),
+        COp::RecvBatchMut(n) => (7, n as usize),
+        COp::RecvCancel => {
+          let f05 = env.s.flavour.rendezvous() && crate::finding_open("F05-rendezvous-cancelled-fulfilled-recv-loses-value");
+          (if h.caps().futures && !f05 { 8 } else { 1 }, 1)
+        }
+      };
+      if want == 0 || ((kind == 5 || kind == 6 || kind == 7) && !h.caps().batch) {
+        continue;
+      }
+      let units = reserve(want);
+      if units == 0 {
+        continue; // every remaining item is already spoken for
+      }
+      let before = got_of(&env);
+      let disc = do_recv(&h, kind, units, false);
+      let took = got_of(&env) - before;
+      env.remaining.fetch_add(units - took.min(units), O::SeqCst);
+      if disc {
+        env.log.lock().unwrap().fail(Failure::new("C04", sig(&env.s, "balanced", "disconnected_with_live_sender"), format!("consumer {c} observed Disconnected although every producer handle is still alive")));
+        break;
+      }
+    }
+    return Some(h);
+  }
   if env.s.balanced {
     // receive exactly this consumer's share, cycling through the generated receive styles
     let total = balanced_total(&env.s);
@@ -901,7 +982,7 @@ fn run_many(s: &Scenario, seeds: Vec<u64>) -> Vec<ExecOut> {
         i
       };
       let _ = idx;
-      let env = Arc::new(Env { s: sc.clone(), log: log.clone(), reg: reg.clone(), nproducers: sc.producers.len(), cap });
+      let env = Arc::new(Env { s: sc.clone(), remaining: std::sync::atomic::AtomicUsize::new(balanced_total(&sc)), log: log.clone(), reg: reg.clone(), nproducers: sc.producers.len(), cap });
       let s = &env.s;
       let (t0, r0) = make(s.flavour, s.async_start, s.cap);
       // one handle per thread, cloned up front
@@ -1018,7 +1099,7 @@ fn judge(s: &Scenario, st: ExecState, panic_msg: Option<String>, drainer_exists:
   if s.flavour != Flavour::Broadcast {
     // C01 — "each value whose send reports success is returned by exactly one successful
     // receive provided some receiver keeps receiving until it observes Disconnected"
-    if drainer_exists || s.balanced {
+    if drainer_exists || (s.balanced && !s.reserve) {
       let lost: Vec<u32> = l.sends.iter().filter(|(id, e)| e.3 && !received.contains(id)).map(|(id, _)| *id).collect();
       if !lost.is_empty() {
         out.failure = Some(Failure::new("C01", sig(s, "conservation", "lost_value"), format!("schedule seed {seed}: {} value(s) whose send reported Ok were never received although a consumer drained to Disconnected: {:?}", lost.len(), &lost[..lost.len().min(6)])));
